@@ -27,5 +27,6 @@ Predicted ==
      LET v == CHOOSE n \in NumClasses : n.name = c.val
      IN IF NumberConstructRaises(v) /\ c.atom = "type_number" THEN "other:OverflowError" ELSE "fine"
   ELSE "fine"
-Inv == PrintT(ToJson([case |-> c, predicted |-> Predicted, m10 |-> Predicted # "fine"]))
+Inv == PrintT(ToJson([case |-> c, predicted |-> Predicted, m10 |-> Predicted # "fine",
+                      expected |-> ExpectedAccept(c)]))
 =============================================================================
